@@ -108,8 +108,8 @@ func (p *RawPeer) readMore() bool {
 	if p.EOF || p.Err != nil {
 		return false
 	}
-	if p.Hold != nil {
-		p.r.S.ParkE(p.Name+".hold", func() bool { return !p.Hold() }, nil)
+	if p.Hold != nil && p.E.RGate == nil {
+		p.E.RGate = func() bool { return !p.Hold() }
 	}
 	buf := make([]byte, 1<<16)
 	n, err := p.E.Read(buf)
